@@ -54,11 +54,15 @@ class C19(Property):
             "blake2b indexes are equal, distinct or colliding; getters ok / raising after j parts / raising a BaseException; the inner cacher's rmv ok / raising) on a real "
             "ConcurrentCacher(instrumented MemoryCacher, recording list, scheduler lock) under a baton scheduler (random or "
             "preemption-bounded schedules); plus DiskCacher cases (getter raising after j lines, file truncated at byte n, zero-length "
-            "file) and a few free-running runs on a real multiprocessing RawArray+Lock. non-trivial = a scheduled run in which at least "
+            "file), a few free-running runs on a real multiprocessing RawArray+Lock, and reader-depth probes (127-400 simultaneous read locks on one "
+            "slot of the lock table built by CobaMultiprocessor, by nesting or by threads at a barrier). non-trivial = a scheduled run in which at least "
             "two threads operated on one index and a write lock was taken, or a disk case with a cut strictly inside the entry")
     trusted_base = [
         "blocks under `with self._lock:` are atomic (the lock itself, multiprocessing.Lock/RawArray memory visibility, the OS scheduler) "
         "and any interleaving of such blocks and of inner-cache operations is possible; the real 1-second sleep is replaced by a yield",
+        "the shared array's cell type can hold the number of simultaneous read locks on one slot (the model's cell is an unbounded Int, "
+        "theorem slot_counts_readers); probed on the RawArray that coba/multiprocessing.py itself allocates with 127-400 nested re-entrant "
+        "reads by one caller and 130-300 threads inside their with-blocks",
         "gzip/zlib: reading a truncated .gz member raises before end of file (trailer check)",
         "inner cacher operations are those of MemoryCacher (a failing getter stores nothing); DiskCacher is modelled separately as a map",
         "the baton scheduler and the event labelling of harness/props/c19_sched.py, c19_run.py",
